@@ -22,8 +22,11 @@ HOSTILE = [
     "1.5", "ä", "€", "a\x00b", "\t", "a\rb", "a\nb", " ", "", "x" * 300, "%", "%Q", "{", "*", "?", "[a-", "(?P<", "lambda", "count", "__class__", "is_valid", "format", "none",
     "0x110000", 'u"a"', "for", "None", "1,2", "a,b", ";", "'a' 'b'", '"""', "\\x", "DD.DD", "1...2...3", "5...1",
     "  'a'\n 'b'", "\t'a'\n  'b'", "rot13", "base64", "hex", "utf-16", "utf-32", "zlib", "idna", "punycode", "undefined", "utf-8-sig", "unicode_escape",
+    "...5,7...", "...5, 7...", "1...,...9", "It's", "a.b 'c",
     ",", ",,", '"\\x"', "'\\'", '"\\u12"', '"\\N{x}"', '"\\"', "...,", ",1", "1,", "a,", "- ,", "0x1,0x", "%%", "\\", "[", "]]", "(?i", "a**", "x{2,1}",
 ]
+# a sound first token followed by something the tokenizer or the parser rejects right there
+HOSTILE += ["%s %s" % (head, tail) for head in ("Text", "5", '"a"') for tail in ("'abc", '"abc', "0b2", "\\", "1_", "0x", "$", "?", "(", "...")]
 FIELDS = {
     "delimited": [["id", "12", "", "1...5", "Integer", "0...99999"], ["name", "Bob", "X", "...10", "Text", ""], ["kind", "a", "", "", "Choice", '"a","b"'],
                   ["born", "2000-01-31", "X", "10", "DateTime", "YYYY-MM-DD"], ["amount", "1.50", "", "", "Decimal", "0...99.99"], ["code", "abc", "", "", "Pattern", "a*"],
